@@ -22,7 +22,7 @@ ShapeOK(r) ==
       [] r.op = "pkgpath"   -> Has2(o, {"ok"})
       [] r.op = "depend"    -> Has2(o, {"ok"})
       [] r.op = "sumparse"  -> Either(o, "ok", "err")
-      [] r.op = "sumhist"   -> Has2(o, {"snaps", "texts", "done", "stable", "reparse"}) /\ Len(o.snaps) = Len(r.in.steps) /\ o.stable = "T"
+      [] r.op = "sumhist"   -> Has2(o, {"snaps", "texts", "done", "stable", "reparse", "pb", "pv", "desc"}) /\ Len(o.snaps) = Len(r.in.steps) /\ o.stable = "T"
       [] r.op = "stream"    -> Has2(o, {"writes", "entries", "display"})
                                /\ \A i \in 1..Len(o.writes) :
                                      /\ o.writes[i].ret[1] \in {"ok", "err"}
